@@ -246,7 +246,9 @@ def handler_life(maxretries):
             sx.assume(T > 0)
             got = []
             s.add_receive_handler(GeckoPacketProtocolHandler(socket=s))
-            req = GeckoVersionProtocolHandler.request(1, parms=PARMS, on_handled=lambda h, snd: got.append(clock.time()))
+            with_cb = bool(sx.choice("request_has_a_callback", 2))
+            req = GeckoVersionProtocolHandler.request(
+                1, parms=PARMS, on_handled=(lambda h, snd: got.append(clock.time())) if with_cb else None)
             req._timeout_in_seconds = T
             req._retry_count = N
             req._start_time = clock.time()
@@ -286,7 +288,8 @@ def handler_life(maxretries):
             total = mine()
             sx.observe("total", total)
             if answer_at < iters and (removed_at is None or removed_at >= answer_at):
-                sx.check(got and removed_at == answer_at, "eng.answered-request-is-removed-at-once", lambda: f"{removed_at} vs {answer_at}")
+                sx.check((bool(got) or not with_cb) and removed_at == answer_at, "eng.answered-request-is-removed-at-once",
+                         lambda: f"{removed_at} vs {answer_at}")
                 sx.check(total == answered_sends, "eng.no-transmission-after-the-answer", lambda: f"{total} vs {answered_sends}")
                 sx.check(total <= N + 1, "eng.at-most-n-retransmissions")
             else:
